@@ -16,8 +16,10 @@ import (
 	"os"
 	"sort"
 	"strings"
+	gosync "sync"
 	"time"
 
+	"github.com/cenkalti/rpc2"
 	"github.com/ovn-org/libovsdb/ovsdb"
 	"github.com/ovn-org/libovsdb/verifshim/vsync"
 
@@ -123,6 +125,8 @@ type c17Run struct {
 	obs     c17Obs
 	regInit []json.RawMessage
 	regRecs []*sys.Recorder
+	clMu    gosync.Mutex
+	clients map[int]*rpc2.Client
 }
 
 func newC17Run(dbs *schemas.DB, sc c17Scenario) *c17Run {
@@ -155,7 +159,20 @@ func (r *c17Run) txn(name string, ops []rm.Op) {
 		r.obs.results[name] = "monitor registered"
 		return
 	}
-	res, err := r.sys.TransactRef(ops)
+	// every client thread is a connection of its own
+	var ti int
+	fmt.Sscanf(name, "T%d/", &ti)
+	r.clMu.Lock()
+	if r.clients == nil {
+		r.clients = map[int]*rpc2.Client{}
+	}
+	cl := r.clients[ti]
+	if cl == nil {
+		_, cl = sys.NewRecorder()
+		r.clients[ti] = cl
+	}
+	r.clMu.Unlock()
+	res, err := r.sys.As(cl).TransactRef(ops)
 	if err != nil {
 		r.obs.results[name] = "rpc error: " + err.Error()
 		return
@@ -260,9 +277,26 @@ func c17Explore(r *ev.Run, dbs *schemas.DB, sc c17Scenario, bound int) {
 	for _, order := range c17Orders(counts) {
 		run := newC17Run(dbs, sc)
 		idx := make([]int, len(sc.threads))
+		// the sequential runs are the yardstick for the concurrent ones, so they are themselves compared with the reference
+		// model: same transactions, same order, final contents must agree
+		model := run.sys.State()
+		modelOK := true
 		for _, t := range order {
-			run.txn(fmt.Sprintf("T%d/%d", t, idx[t]), sc.threads[t][idx[t]])
+			ops := sc.threads[t][idx[t]]
+			run.txn(fmt.Sprintf("T%d/%d", t, idx[t]), ops)
+			if len(ops) == 1 && ops[0].Op == "MONITOR" {
+				idx[t]++
+				continue
+			}
+			if out := model.Transact(ops); out.Accepted() {
+				model = out.New
+			} else if out.New == nil && out.FailedOp < 0 && out.CommitErr == "" {
+				modelOK = false
+			}
 			idx[t]++
+		}
+		if got, want := run.sys.State().Dump(), model.Dump(); modelOK && got != want {
+			r.Violation("c17.sequential-differs-from-reference."+templ(sc.name), fmt.Sprintf("[%s] executed one after the other in the order %v, each client on its own connection, the database ends as\n%s\nthe reference model gives\n%s", sc.name, order, got, want), map[string]interface{}{"scenario": sc.name, "order": order})
 		}
 		run.finish(ref)
 		for _, m := range run.obs.initial {
